@@ -1,6 +1,7 @@
 package main
 
 import (
+	"fmt"
 	"go/ast"
 	goprinter "go/printer"
 	"io"
@@ -8,8 +9,57 @@ import (
 
 func printer(w io.Writer, e ast.Expr) error { return goprinter.Fprint(w, fset, e) }
 
-// extraLean: further generated Lean definitions (tables); filled in as the models grow.
-func extraLean(repo string) []string { return nil }
+// funcReturnLit returns field -> value expression of the composite literal returned by func name in dir.
+func funcReturnLit(repo, dir, name string) map[string]ast.Expr {
+	for _, f := range load(repo, dir) {
+		for _, d := range f.Decls {
+			fd, ok := d.(*ast.FuncDecl)
+			if !ok || fd.Name.Name != name || fd.Recv != nil || fd.Body == nil {
+				continue
+			}
+			for _, st := range fd.Body.List {
+				rs, ok := st.(*ast.ReturnStmt)
+				if !ok || len(rs.Results) != 1 {
+					continue
+				}
+				cl, ok := rs.Results[0].(*ast.CompositeLit)
+				if !ok {
+					continue
+				}
+				m := map[string]ast.Expr{}
+				for _, el := range cl.Elts {
+					kv, ok := el.(*ast.KeyValueExpr)
+					if !ok {
+						continue
+					}
+					if id, ok := kv.Key.(*ast.Ident); ok {
+						m[id.Name] = kv.Value
+					}
+				}
+				return m
+			}
+		}
+	}
+	return nil
+}
+
+// extraLean: further generated Lean definitions (tables).
+func extraLean(repo string) []string {
+	var out []string
+	// store/types/gas.go: KVGasConfig()
+	g := funcReturnLit(repo, "store/types", "KVGasConfig")
+	if g == nil {
+		fatal("KVGasConfig literal not found")
+	}
+	for _, f := range []string{"HasCost", "DeleteCost", "ReadCostFlat", "ReadCostPerByte", "WriteCostFlat", "WriteCostPerByte", "IterNextCostFlat"} {
+		e, ok := g[f]
+		if !ok {
+			fatal("KVGasConfig has no field %s", f)
+		}
+		out = append(out, fmt.Sprintf("abbrev gas%s : Nat := %s\n", f, evalConst(repo, "store/types", e, 0).ExactString()))
+	}
+	return out
+}
 
 // structuralFacts: T3 facts; filled in as the properties need them.
 func structuralFacts(repo string) map[string]interface{} {
